@@ -107,7 +107,8 @@ func sysNew(f []string) vlib.Res {
 		"real.w.zone.test. 120 IN TXT \"real\"",
 		"txt.zone.test. 300 IN TXT \"hello\"",
 		"deep.a.b.zone.test. 300 IN A 192.0.2.12",
-		"mx.zone.test. 300 IN MX 10 www.zone.test.")
+		"mx.zone.test. 300 IN MX 10 www.zone.test.",
+		"d.zone.test. 300 IN DNAME other.test.")
 	if spec["zone"] == "s" {
 		switch spec["keys"] {
 		case "pairkz": // KSK and ZSK with one key tag
@@ -144,6 +145,8 @@ func sysNew(f []string) vlib.Res {
 	o := w.AddZone("other.test.", l3.ZoneOpts{Signed: true, PublishDS: true, Alg: dns.ED25519})
 	s.srv["other"] = o.Servers[0]
 	o.Add("www.other.test. 300 IN A 192.0.2.30", "victim.other.test. 300 IN A 192.0.2.31")
+	ev := w.AddZone("evilother.test.", l3.ZoneOpts{}) // a name that merely ends in the characters of other.test.
+	ev.Add("www.evilother.test. 300 IN A 6.6.6.6", "victim.evilother.test. 300 IN A 6.6.6.6")
 	pl := w.AddZone("plain.test.", l3.ZoneOpts{})
 	s.srv["plain"] = pl.Servers[0]
 	pl.Add("www.plain.test. 300 IN A 192.0.2.40")
@@ -481,6 +484,69 @@ func (s *sysWorld) apply(t tamper, q dns.Question, m *dns.Msg) *dns.Msg {
 				}
 				return rr
 			})
+		}
+	case "dname-retarget":
+		// the unsigned CNAME synthesised from a signed DNAME is rewritten so that its relative labels and the
+		// tail of its target still look right: into a domain that merely ends in the same characters, or with
+		// labels inserted in the middle
+		var dn *dns.DNAME
+		for _, rr := range m.Answer {
+			if d, ok := rr.(*dns.DNAME); ok {
+				dn = d
+			}
+		}
+		if dn != nil {
+			m.Answer = mapRRs(m.Answer, func(rr dns.RR) dns.RR {
+				c, ok := rr.(*dns.CNAME)
+				if !ok || !strings.HasSuffix(strings.ToLower(c.Target), strings.ToLower(dn.Target)) {
+					return rr
+				}
+				rel := c.Target[:len(c.Target)-len(dn.Target)]
+				if t.arg == "insert" {
+					c.Target = rel + "b.c." + dn.Target
+				} else {
+					c.Target = rel + "evil" + dn.Target
+				}
+				return c
+			})
+		}
+	case "ds-replay-nsec":
+		// referrals lose their DS RRset; the DS query is answered NODATA and "proved" with the parent's own,
+		// genuinely signed NSEC of the delegation point — whose bitmap lists DS: it proves the opposite
+		z := s.zoneOfSigs(m)
+		child := ""
+		each(func(rr dns.RR) dns.RR {
+			if rr.Header().Rrtype == dns.TypeDS {
+				child = rr.Header().Name
+				return nil
+			}
+			if isSigFor(rr, dns.TypeDS) {
+				return nil
+			}
+			return rr
+		})
+		if q.Qtype == dns.TypeDS && child != "" && z != nil && z.Signed {
+			first := dns.SplitDomainName(child)[0]
+			probe := first + "0." + strings.TrimPrefix(child, first+".")
+			pm := new(dns.Msg)
+			pm.SetQuestion(probe, dns.TypeA)
+			z.Answer(pm.Question[0], true, pm)
+			var ns []dns.RR
+			for _, rr := range pm.Ns {
+				switch x := rr.(type) {
+				case *dns.SOA:
+					ns = append(ns, rr)
+				case *dns.NSEC:
+					if strings.EqualFold(x.Hdr.Name, child) {
+						ns = append(ns, rr)
+					}
+				case *dns.RRSIG:
+					if x.TypeCovered == dns.TypeSOA || (x.TypeCovered == dns.TypeNSEC && strings.EqualFold(x.Hdr.Name, child)) {
+						ns = append(ns, rr)
+					}
+				}
+			}
+			m.Answer, m.Ns, m.Rcode = nil, ns, dns.RcodeSuccess
 		}
 	case "replay-old":
 		// data the zone published in the past, with the signatures of that time (now expired):
@@ -867,7 +933,7 @@ func genL3(r *vlib.R, emit func(string)) int {
 	qs := []sysQ{{"www.zone.test.", "A"}, {"alias.zone.test.", "A"}, {"xalias.zone.test.", "A"}, {"ialias.zone.test.", "A"},
 		{"x.w.zone.test.", "TXT"}, {"a.b.w.zone.test.", "TXT"}, {"real.w.zone.test.", "TXT"}, {"real.w.zone.test.", "TXT"}, {"txt.zone.test.", "TXT"}, {"nope.zone.test.", "A"},
 		{"www.zone.test.", "AAAA"}, {"deep.a.b.zone.test.", "A"}, {"mx.zone.test.", "MX"},
-		{"zone.test.", "DS"}, {"zone.test.", "DNSKEY"}, {"zone.test.", "SOA"}, {"www.other.test.", "A"}, {"www.plain.test.", "A"},
+		{"www.d.zone.test.", "A"}, {"victim.d.zone.test.", "A"}, {"www.d.zone.test.", "A"}, {"zone.test.", "DS"}, {"zone.test.", "DNSKEY"}, {"zone.test.", "SOA"}, {"www.other.test.", "A"}, {"www.plain.test.", "A"},
 		{"x.w.zone.test.", "A"}, {"test.", "SOA"}, {".", "SOA"}, {"nonexistent-tld.", "A"}}
 	if subk != "-" {
 		qs = append(qs, sysQ{"www.sub.zone.test.", "A"}, sysQ{"alias.sub.zone.test.", "A"}, sysQ{"txt.sub.zone.test.", "TXT"},
@@ -917,14 +983,15 @@ func genL3(r *vlib.R, emit func(string)) int {
 		{"evilkey", "plain", "all"}, {"evilkey", "keepsig", "all"}, {"evilkey", "replace", "all"},
 		{"replay-old", "-", "data"}, {"replay-old", "-", "data"}, {"ds-to-soa", "-", "all"}, {"ds-to-nsec", "-", "all"}, {"ds-to-nssig", "-", "all"},
 		{"wildcard-replay", "-", "data"}, {"wildcard-replay", "-", "data"}, {"ds-childside", "-", "all"},
-		{"rcode", "1", "data"}, {"rcode", "4", "data"}, {"rcode", "5", "data"}, {"rcode", "9", "data"}, {"rcode", "3", "all"}}
+		{"rcode", "1", "data"}, {"rcode", "4", "data"}, {"rcode", "5", "data"}, {"rcode", "9", "data"}, {"rcode", "3", "all"},
+		{"dname-retarget", "evil", "data"}, {"dname-retarget", "evil", "data"}, {"dname-retarget", "insert", "data"}, {"ds-replay-nsec", "-", "all"}}
 	if keys == "pairkk" {
 		kinds = append(kinds, tk{"clonekey", "-", "all"}, tk{"clonekey", "-", "all"}, tk{"evilkey", "sametag", "all"}, tk{"evilkey", "sametag", "all"})
 	}
 	if zone == "s" && r.Chance(1, 6) {
 		// downgrade attempts: the parent's referral loses the DS in some way AND the child serves forged unsigned data
 		nt = 0
-		how := vlib.Pick(r, []string{"dropds", "ds-to-nssig", "ds-to-nssig", "ds-to-soa", "ds-to-nsec", "swapds", "ds-childside", "ds-childside"})
+		how := vlib.Pick(r, []string{"dropds", "ds-to-nssig", "ds-to-nssig", "ds-to-soa", "ds-to-nsec", "swapds", "ds-childside", "ds-childside", "ds-replay-nsec", "ds-replay-nsec"})
 		parent := "tld"
 		if zsame == "t" {
 			parent = "zone"
@@ -940,10 +1007,10 @@ func genL3(r *vlib.R, emit func(string)) int {
 	for i := 0; i < nt; i++ {
 		k := vlib.Pick(r, kinds)
 		srv := vlib.Pick(r, servers)
-		if k.kind == "evilkey" || k.kind == "clonekey" || k.kind == "wildcard-replay" {
+		if k.kind == "evilkey" || k.kind == "clonekey" || k.kind == "wildcard-replay" || k.kind == "dname-retarget" {
 			srv = "zone"
 		}
-		if k.kind == "dropds" || k.kind == "swapds" || k.kind == "ds-to-soa" || k.kind == "ds-to-nsec" || k.kind == "ds-to-nssig" || k.kind == "ds-childside" {
+		if k.kind == "dropds" || k.kind == "swapds" || k.kind == "ds-to-soa" || k.kind == "ds-to-nsec" || k.kind == "ds-to-nssig" || k.kind == "ds-childside" || k.kind == "ds-replay-nsec" {
 			srv = vlib.Pick(r, []string{"tld", "tld", "zone", "root"})
 		}
 		e(fmt.Sprintf("l3 tamper %s %s %s %s", srv, k.kind, k.arg, k.scope))
